@@ -89,12 +89,14 @@ class ClobberLeg(object):
                              st.sampled_from([{"empty": ""}, {"empty": "##gff-version 3\n# nothing here\n"}, {"empty": "\n\n"}])),
             "force": st.booleans(),
             "keep_open": st.booleans(),
+            "old_emptied": st.sampled_from([False, False, True]),
         })
 
     def classify(self, case):
         differ = make_annotation(case["old"]) != make_annotation(case["new"])
         newkind = "empty" if "empty" in case["new"] else ("gtf" if case["new"]["gtf"] else "gff3")
-        return differ, ["force=%s" % case["force"], "old-%s new-%s" % ("gtf" if case["old"]["gtf"] else "gff3", newkind)]
+        return differ, ["force=%s" % case["force"], "old-%s new-%s" % ("gtf" if case["old"]["gtf"] else "gff3", newkind)] + (
+            ["old-emptied"] if case.get("old_emptied") else [])
 
     def check(self, case, ctx):
         import gffutils
@@ -105,6 +107,9 @@ class ClobberLeg(object):
         p_new = ctx.write("new.txt", new_text)
         dbfn = ctx.path("target.db")
         db = gffutils.create_db(p_old, dbfn)
+        if case.get("old_emptied"):
+            # an existing database need not hold features any more: it still has directives, dialect and id counters
+            db.delete([f.id for f in db.all_features()], make_backup=False)
         snap_old = dbsnap.snapshot(db)
         if not case["keep_open"]:
             db.conn.close()
@@ -176,7 +181,8 @@ class ReadsLeg(object):
             "consume": st.sampled_from(["all", "all", "one"]),
             "flag": st.booleans(),
         })
-        return st.fixed_dictionaries({"spec": spec_strategy(st, "r"), "ops": st.lists(op, min_size=5, max_size=30)})
+        return st.fixed_dictionaries({"spec": spec_strategy(st, "r"), "ops": st.lists(op, min_size=5, max_size=30),
+                                      "failed_write_first": st.sampled_from([False, False, True])})
 
     def classify(self, case):
         kinds = set(o["op"] for o in case["ops"])
@@ -263,6 +269,13 @@ class ReadsLeg(object):
         sha0 = _sha(dbfn)
 
         db = gffutils.FeatureDB(dbfn)
+        if case.get("failed_write_first") and len(ids) >= 2:
+            # an earlier write on this handle failed half way (the docstring's own parent_func example returns
+            # None): its pending row must not be made durable by any later read-style call
+            try:
+                db.add_relation(ids[0], ids[-1], 7, parent_func=lambda parent, child: None)
+            except Exception:  # noqa
+                pass
         statements = []
         db.conn.set_trace_callback(statements.append)
         writes = []
@@ -275,7 +288,7 @@ class ReadsLeg(object):
                 n_raised += 1
             for s in statements[mark:]:
                 word = s.strip().split(None, 1)[0].upper() if s.strip() else ""
-                if word not in ("SELECT", "PRAGMA", "EXPLAIN"):
+                if word not in ("SELECT", "PRAGMA", "EXPLAIN") and not (word == "ROLLBACK"):
                     writes.append((k, o["op"], s.strip()[:120]))
             if writes:
                 break
@@ -287,7 +300,7 @@ class ReadsLeg(object):
             k, name, s = writes[0]
             return Failure("read-style call #%d %s issued a non-read statement: %r" % (k, name, s),
                            sig={"kind": "write-statement", "op": name})
-        if db.conn.in_transaction:
+        if db.conn.in_transaction and not case.get("failed_write_first"):
             return Failure("a transaction is open after read-style calls", sig={"kind": "open-transaction"})
         db.conn.close()
         again = gffutils.FeatureDB(dbfn)
